@@ -153,6 +153,7 @@ struct Seen {
     stops_from_arbiter: u64,
     stops_from_foreign: u64,
     stops_from_system_thread: u64,
+    late_arbiters: u64,
 }
 
 /// Runs on a fresh thread: owns the System.
@@ -227,6 +228,9 @@ fn scenario(scn: &Scn, seen: &mut Seen) -> Outcome {
     let barrier = Arc::new(Rendezvous::default());
     let mut foreign_threads = Vec::new();
     let mut deferred_block_on: Vec<(i32, Arc<AtomicU64>)> = Vec::new();
+    // both stops issued on the system thread before run(): everything is queued when the controller first runs
+    let late_arbiter = scn.stops.len() == 2 && scn.stops.iter().all(|(f, _)| *f == From::SysBeforeRun) && scn.seed % 2 == 0;
+    let mut late: Option<Arbiter> = None;
     let mut second_skipped = false;
 
     // ordered = every stop is *issued* (the call returned) before the next one starts
@@ -244,12 +248,15 @@ fn scenario(scn: &Scn, seen: &mut Seen) -> Outcome {
         match from {
             From::SysBeforeRun => {
                 seen.stops_from_system_thread += 1;
-                if racing {
-                    // the system thread cannot wait on the barrier and run at once: issue directly, the other side races freely
-                    issue();
-                } else {
-                    issue();
+                // an arbiter created after the first stop was issued but before this (second) one: the second stop is
+                // issued after its creation, so it must be stopped as well
+                if k == 1 && late_arbiter {
+                    let arb = Arbiter::new();
+                    seen.arbiters_total += 1;
+                    seen.late_arbiters += 1;
+                    late = Some(arb);
                 }
+                issue();
             }
             From::SysInBlockOn => {
                 seen.stops_from_system_thread += 1;
@@ -391,6 +398,19 @@ fn scenario(scn: &Scn, seen: &mut Seen) -> Outcome {
     }
 
     // ---- every arbiter created before the stop has ended its loop
+    if let Some(arb) = late {
+        seen.joins_checked += 1;
+        match with_watchdog(move || arb.join().is_ok()) {
+            Waited::Done(_) => {}
+            Waited::Stuck => {
+                return Outcome::Violated(Fail {
+                    sig: "C09:arbiter-not-stopped:created-between-two-stops".into(),
+                    desc: "an arbiter created after the first stop_with_code call but before the second was not stopped by the second call: join() does not return; process quiescent".into(),
+                })
+            }
+            Waited::Unknown => return Outcome::Inconclusive("late-arbiter join watchdog"),
+        }
+    }
     for (i, arb) in kept {
         seen.joins_checked += 1;
         match with_watchdog(move || arb.join().is_ok()) {
@@ -468,6 +488,7 @@ fn merge(a: &mut Seen, b: &Seen) {
     a.stops_from_arbiter += b.stops_from_arbiter;
     a.stops_from_foreign += b.stops_from_foreign;
     a.stops_from_system_thread += b.stops_from_system_thread;
+    a.late_arbiters += b.late_arbiters;
 }
 
 pub fn run(args: &Args, rep: &mut Report) {
@@ -545,5 +566,6 @@ pub fn run(args: &Args, rep: &mut Report) {
     rep.add("obs_stops_from_arbiter_thread", seen.stops_from_arbiter);
     rep.add("obs_stops_from_foreign_thread", seen.stops_from_foreign);
     rep.add("obs_stops_from_system_thread", seen.stops_from_system_thread);
+    rep.add("obs_arbiters_created_between_two_stops", seen.late_arbiters);
 }
 
